@@ -448,6 +448,13 @@ def _d_sample(population, k, *, counts=None):
     pool = list(population)
     if not 0 <= k <= len(pool):
         raise ValueError("Sample larger than population or is negative")
+    if run.shuffle_alts is not None and k == len(pool):
+        # a full-length sample is a shuffle: use the check's alternative generator for it as well
+        count, get = run.shuffle_alts(list(pool))
+        j = run.choose(count, None, "sample*")
+        out = list(get(j))
+        run.calls.append(("sample", list(out)))
+        return out
     out = []
     if all(_hashable(v) for v in pool):
         # equal values are interchangeable: choose among the distinct remaining values with probability
